@@ -151,6 +151,9 @@ def run_property(prop, tier='quick', repo='/repo', quiet=False, write_evidence=T
             print('check %s: cannot analyse %s: %s' % (prop, repo, e))
             print('no verdict: the tree does not build or the facts are stale')
             return 2, []
+        info = dict(info)
+        # what the normalisation against the reference function table did on this tree (identity on the reference tree)
+        info['normalisation'] = {'renamed_back': dict(prog.renamed), 'helpers_inlined': [{'helper': h, 'into': c} for h, c in prog.inlined]}
         infos.append(info)
         cx = run_rules(mod, prog, profile, only_rule)
         all_records.extend(cx.records)
